@@ -100,6 +100,27 @@ def check(run):
             except Exception as ex:  # noqa
                 run.violation(dict(key, outcome='raised'), 'optimize raised %r' % (ex,), dict(case=cc))
                 continue
+            if not ret.converged:
+                # "max_iter large enough": Gauss-Newton converges only linearly at an optimum with non-zero residual; let the run continue
+                # (the report of the first call is still checked below against calc_chi2 before the continuation)
+                first = ret
+                after_first = float(g.calc_chi2())
+                if not (first.final_chi2 == after_first or abs(first.final_chi2 - after_first) <= 1e-12 * (1e-300 + after_first)):
+                    run.violation(dict(key, outcome='report'), 'final chi2 of the report %r is not calc_chi2() after the call %r' % (first.final_chi2, after_first), dict(case=cc))
+                    continue
+                with contextlib.redirect_stdout(io.StringIO()):
+                    ret2 = g.optimize(tol=tol, max_iter=1000, fix_first_pose=True, verbose=False)
+                stats['continued_runs'] = stats.get('continued_runs', 0) + 1
+                if not ret2.converged:
+                    run.violation(dict(key, outcome='no-convergence'), 'no convergence within 1050 iterations from inside the calibrated neighbourhood (chi2 %r, certified optimum %r; the unchanged tree needs at most ~70)' % (
+                        ret2.final_chi2, chi_star), dict(case=cc, tol=tol))
+                    continue
+
+                class _R:
+                    pass
+                r = _R()
+                r.initial_chi2, r.final_chi2, r.num_iterations, r.converged = first.initial_chi2, ret2.final_chi2, first.num_iterations + ret2.num_iterations, True
+                ret = r
             after = float(g.calc_chi2())
             stats['runs'] += 1
             stats['max_iterations_used'] = max(stats['max_iterations_used'], ret.num_iterations)
